@@ -99,19 +99,24 @@ def _check_case(root, spec, pps, absolute, cfg, out, armed, alias):
         if alias is not None:
             spelled.append(('symlink/..', alias + '/..'))
     sres = []
+    # in a third of the cases an exclusion that excludes nothing is supplied through exclude= (every other clause stays as it is)
+    xk, bxk = {}, {}
+    if len(str(pats)) % 3 == 0:
+        xk, bxk = {'exclude': 'zz_nothing*'}, {'exclude': b'zz_nothing*'}
+        case['exclude'] = 'zz_nothing*'
     try:
         with util.watchdog(15), util.ScandirCounter(8000):
-            res = G.glob(pats, flags=fl, root_dir=root)
+            res = G.glob(pats, flags=fl, root_dir=root, **xk)
             for label, sp in spelled:
-                sres.append(('root_dir spelled with ' + label, G.glob(pats, flags=fl, root_dir=sp)))
-            ires = list(G.iglob(pats, flags=fl, root_dir=root))
+                sres.append(('root_dir spelled with ' + label, G.glob(pats, flags=fl, root_dir=sp, **xk)))
+            ires = list(G.iglob(pats, flags=fl, root_dir=root, **xk))
             bres = [os.fsdecode(x) for x in G.glob(os.fsencode(pats) if isinstance(pats, str) else [os.fsencode(p) for p in pats], flags=fl,
-                                                  root_dir=os.fsencode(root))]
-            pres = G.glob(pats, flags=fl, root_dir=pathlib.Path(root))
+                                                  root_dir=os.fsencode(root), **bxk)]
+            pres = G.glob(pats, flags=fl, root_dir=pathlib.Path(root), **xk)
             fd = os.open(root, os.O_RDONLY)
-            fres = G.glob(pats, flags=fl, dir_fd=fd)
+            fres = G.glob(pats, flags=fl, dir_fd=fd, **xk)
             with util.chdir(root):
-                cres = G.glob(pats, flags=fl)
+                cres = G.glob(pats, flags=fl, **xk)
     except util.HarnessBudget:
         out.stats['budget_skipped'] += 1
         return None
